@@ -139,7 +139,11 @@ class xfunc:
         it will be promoted to float so that NaN can be returned.
         """
         if condition is None:
-            condition = numpy.isclose(arr, 0)
+            # Rounding noise scales with the totals involved: a value is only
+            # "barely not 0" relative to them, never in absolute terms alone
+            # (weights may be normalized to any scale).
+            scale = numpy.abs(numpy.nan_to_num(arr)).sum()
+            condition = numpy.isclose(arr, 0, atol=min(1e-8, 1e-10 * scale))
 
         if condition.any():
             if new == "nan" and "i" in arr.dtype.str:
